@@ -16,7 +16,7 @@ if echo "$suite" | grep -q "^FAIL\|^---"; then
   suite=$(unshare -n -- sh -c "ip link set lo up; cd $wt && go test -vet=off -count=1 ./... 2>&1" | grep -v "no test files")
 fi
 sfail=$(echo "$suite" | grep -c "^FAIL")
-cp $demo $wt/$pkg/zz_demo_test.go
+mkdir -p $wt/$pkg; cp $demo $wt/$pkg/zz_demo_test.go
 with=$(unshare -n -- sh -c "ip link set lo up; cd $wt/$pkg && timeout 600 go test -vet=off -count=1 -run '$rx' . 2>&1" | tail -3 | tr '\n' ' ')
 git apply -R $patch
 without=$(unshare -n -- sh -c "ip link set lo up; cd $wt/$pkg && timeout 600 go test -vet=off -count=1 -run '$rx' . 2>&1" | tail -3 | tr '\n' ' ')
